@@ -46,7 +46,7 @@
 EXTENDS Integers, Sequences, FiniteSets, TLC, Json
 
 CONSTANTS Slices,    \* the slices to explore (<- QuickSlices | ThoroughSlices | MutantSlices | ...)
-          Mut        \* "none" | "lt" | "nozero" | "wipeprev" | "rot1" | "rotdif" | "noremap" | "future" | "shared" | "steal" | "nogen"
+          Mut        \* "none" | "lt" | "nozero" | "wipeprev" | "rot1" | "rotdif" | "noremap" | "future" | "shared" | "steal" | "nogen" | "orphan"
 
 Base == 100          \* bucket id of the first clock reading (any value far from 0)
 
@@ -56,11 +56,12 @@ VARIABLES cs,        \* the case: [sl, NK, N, C, kind, dist, lim, steps, offs, w
           lims,      \* per key: the limiter  [minID, maxID, cnt]  (cnt[idx][share], idx 0-based as b.b)
           passed,    \* history per key: <<bucket id, share>> -> passed events/size  (charged share)
           arrived,   \* history per key: <<bucket id, share>> -> arrived events/size (charged share)
+          gm,        \* concurrent getOrAdd model (SpecMap below); constant <<>> under Spec
           ex         \* limiters map: [cur = map generation, gen[k] = limiter's generation (-1: no limiter),
                      \*   last[k] = generation of k's last event (-1: none), busy[k] = k had an event in
                      \*   every generation since the start (history)]
 
-vars == <<cs, hist, now, lims, passed, arrived, ex>>
+vars == <<cs, hist, now, lims, passed, arrived, ex, gm>>
 
 -----------------------------------------------------------------------------
 (* slices.  nk keys; n events; counts = buckets_count values; limits per key; kinds 0 = count,
@@ -244,6 +245,7 @@ Init ==
   /\ passed = [k \in Keys |-> <<>>]
   /\ arrived = [k \in Keys |-> <<>>]
   /\ ex = [cur |-> 0, gen |-> [k \in Keys |-> -1], last |-> [k \in Keys |-> -1], busy |-> [k \in Keys |-> TRUE]]
+  /\ gm = <<>>
 
 (* the clock advances by step, then an event of key k with time now+off, size w and distribution
    value v reaches Plugin.isAllowed: first matching rule -> limitersMap.getOrAdd(rule prefix + key)
@@ -264,7 +266,7 @@ Arrive(k, step, off, w, v) ==
        /\ arrived' = [arrived EXCEPT ![k] = Bump(@, <<r.id, r.sh>>, w)]
        /\ passed' = [passed EXCEPT ![k] = IF r.ok THEN Bump(@, <<r.id, r.sh>>, w) ELSE @]
        /\ ex' = [ex EXCEPT !.gen[k] = IF Mut = "nogen" /\ @ >= 0 THEN @ ELSE ex.cur, !.last[k] = ex.cur]
-       /\ UNCHANGED cs
+       /\ UNCHANGED <<cs, gm>>
 
 (* limitersMap.maintenance, one round under l.mu: curGen := now; delete every limiter with
    now - gen >= limitersExp.  (Recorded in hist with key 0 so that schedules stay distinct.) *)
@@ -279,7 +281,7 @@ Maintain ==
                busy |-> [k \in Keys |-> ex.busy[k] /\ ex.last[k] = ex.cur]]
      /\ hist' = Append(hist, [k |-> 0, now |-> now, ts |-> now, w |-> 0, v |-> 0, hi |-> 0, b |-> 0,
                               must |-> 2, id |-> 0, sh |-> 0, ok |-> TRUE])
-     /\ UNCHANGED <<cs, now, passed, arrived>>
+     /\ UNCHANGED <<cs, now, passed, arrived, gm>>
 
 Next ==
   /\ Len(hist) < cs.N
@@ -365,6 +367,82 @@ KeysIndependent ==
   \A k \in Keys :
      LET own == SelectSeq(hist, LAMBDA e : e.k = k)
      IN [i \in 1..Len(own) |-> own[i].ok] = RunAlone(own, NewLimiter(cs.C, cs.dist), k)
+
+-----------------------------------------------------------------------------
+(* SpecMap -- limitersMap.getOrAdd under concurrency.  The processors of one pipeline each own a
+   Plugin instance, all instances share the pipeline's limitersMap (throttle.go Start:
+   limiters[p.pipeline]).  getOrAdd is a two-phase lookup; its steps, per caller:
+     GFast  under l.mu.RLock : key present -> that limiter, else a miss (lock released!)
+     GSlow  under l.mu.Lock  : re-check; present -> THE STORED limiter (mechanism
+                               M_ReturnStoredLimiter); absent -> build, insert, return it
+     GUse   under the limiter's own mutex : isAllowed -- add, then compare
+   Several callers can miss in GFast for a brand-new key before any of them reaches GSlow.  With the
+   mechanism off (Mut = "orphan": the loser returns a limiter it built itself) every loser checks its
+   event against a private empty limiter and one key gets several budgets.
+   Frozen clock, one bucket, count kind, limit GL; each of GP processors handles GE events, each for
+   any of GK keys.  Variables of the sequential part are constant here. *)
+M_ReturnStoredLimiter == Mut # "orphan"
+GP == 3
+GE == 2
+GK == 2
+GL == 1
+GProcs == 1..GP
+
+InitMap ==
+  /\ cs = [sl |-> "map", NK |-> 0, N |-> 0, C |-> 1, kind |-> 0, dist |-> 0, lim |-> <<>>,
+            steps |-> {}, offs |-> {}, ws |-> {}, E |-> 0]
+  /\ hist = <<>> /\ now = Base /\ lims = <<>> /\ passed = <<>> /\ arrived = <<>> /\ ex = <<>>
+  /\ gm = [map |-> <<>>,                          \* l.lims : key -> limiter id
+           cnt |-> <<>>,                          \* limiter id -> bucket counter
+           next |-> 1,                            \* next limiter id
+           pk |-> [k \in 1..GK |-> 0],            \* history: passed per key (one bucket)
+           ak |-> [k \in 1..GK |-> 0],            \* history: arrived per key
+           early |-> FALSE,                       \* history: some event rejected with arrivals <= limit
+           pc |-> [p \in GProcs |-> "idle"], key |-> [p \in GProcs |-> 0], lim |-> [p \in GProcs |-> 0],
+           done |-> [p \in GProcs |-> 0]]
+
+GStart(p, k) ==
+  /\ gm.pc[p] = "idle" /\ gm.done[p] < GE
+  /\ gm' = [gm EXCEPT !.pc[p] = "fast", !.key[p] = k]
+
+GFast(p) ==
+  /\ gm.pc[p] = "fast"
+  /\ gm' = IF gm.key[p] \in DOMAIN gm.map
+             THEN [gm EXCEPT !.pc[p] = "use", !.lim[p] = gm.map[gm.key[p]]]
+             ELSE [gm EXCEPT !.pc[p] = "slow"]
+
+GSlow(p) ==
+  /\ gm.pc[p] = "slow"
+  /\ LET k == gm.key[p] IN
+       gm' = IF k \in DOMAIN gm.map
+               THEN IF M_ReturnStoredLimiter
+                      THEN [gm EXCEPT !.pc[p] = "use", !.lim[p] = gm.map[k]]
+                      ELSE [gm EXCEPT !.pc[p] = "use", !.lim[p] = gm.next, !.next = @ + 1,
+                                      !.cnt = @ @@ (gm.next :> 0)]
+               ELSE [gm EXCEPT !.pc[p] = "use", !.lim[p] = gm.next, !.next = @ + 1,
+                               !.cnt = @ @@ (gm.next :> 0), !.map = @ @@ (k :> gm.next)]
+
+GUse(p) ==
+  /\ gm.pc[p] = "use"
+  /\ LET k == gm.key[p]
+         c == gm.cnt[gm.lim[p]] + 1
+         ok == c <= GL
+     IN gm' = [gm EXCEPT !.cnt[gm.lim[p]] = c, !.pc[p] = "idle", !.done[p] = @ + 1,
+                         !.ak[k] = @ + 1, !.pk[k] = IF ok THEN @ + 1 ELSE @,
+                         !.early = @ \/ (~ok /\ gm.ak[k] + 1 <= GL)]
+
+NextMap ==
+  /\ \E p \in GProcs : (\E k \in 1..GK : GStart(p, k)) \/ GFast(p) \/ GSlow(p) \/ GUse(p)
+  /\ UNCHANGED <<cs, hist, now, lims, passed, arrived, ex>>
+
+SpecMap == InitMap /\ [][NextMap]_vars
+
+(* one key, one budget per bucket, however many processors meet at a brand-new key *)
+MapNeverOverLimit == \A k \in 1..GK : gm.pk[k] <= GL
+MapNoEarlyReject == ~gm.early
+(* every caller works on the limiter stored for its key *)
+MapOneLimiterPerKey ==
+  \A p \in GProcs : gm.pc[p] = "use" => (gm.key[p] \in DOMAIN gm.map /\ gm.lim[p] = gm.map[gm.key[p]])
 
 -----------------------------------------------------------------------------
 (* export of every explored history with the decision the transcription takes (ok) and what the
